@@ -29,15 +29,16 @@ META = {
     "ready": True,
     "category": "model_checking",
     "technique": "TLA+ spec (ModelCache.tla) of files/mtimes/cache file/shared libraries/options/version model-checked by TLC; every transition of its state graphs replayed on real folders through transfer_model with a differential oracle (fresh compile)",
-    "text": "TLC checks ResultIsFresh / HitImpliesFresh / EditInvalidates / TransferLeavesValidCache / HitIsReadOnly for all histories of edit, add, option change, version change, transfer(cache|codegen), release over 5 files in 3 folders, 4 option sets, 2 versions (state spaces of 5e3..5e5 states, quotient by 'newer than the cache'); the complete transition graphs of the as-built variant are replayed (transition tour + random walks of length 40) against transfer_model on real temp folders with os.utime driven by the spec's logical clock, and after every transfer the returned model (names, order, types, attributes at 3 parameter vectors, aliases, 4 functions at integer points) is compared with a fresh compile of the current sources and options.",
+    "text": "TLC checks ResultIsFresh / HitImpliesFresh / EditInvalidates / TransferLeavesValidCache / HitIsReadOnly for all histories of edit, add, option change, version change, transfer(cache|codegen), release over 5 files in 3 folders, 6 option sets (simplification option, expand_vectors, library_folders only, and two that differ only in the value of the non-boolean eliminable_variable_expression), 2 versions (state spaces of 5e3..5e5 states, quotient by 'newer than the cache'); the complete transition graphs of the variant that describes the current code are replayed (transition tour + random walks of length 40) against transfer_model on real temp folders with os.utime driven by the spec's logical clock, and after every transfer the returned model (names, order, types, attributes at 3 parameter vectors, aliases, 4 functions at integer points) is compared with a fresh compile of the current sources and options.",
     "note": "Trusted: TLC, the Modelica texts that make content ids visible, the projection/comparison code in vf/mc_common.py. Not covered: deleted files, mtime_check=False, edits whose mtime is not later than the cache (outside the property's premise), symlinked folders, edits that happen while a transfer is running. Codegen transitions: a small graph in quick, the cache+codegen graph in thorough.",
     "design_ref": "DESIGN.md section 3, C20",
 }
 
-QUICK_CHECKS = ["clock", "intended_q", "intended_cg_q"]
+QUICK_CHECKS = ["clock", "intended_q", "intended_cg_q", "intended_eve"]
+REGRESSIONS = ["asbuilt_opts", "mut_truthy"]         # earlier / seeded behaviour: expected to violate ResultIsFresh
 BEYOND = ["beyond_backdated", "beyond_split"]        # expected to violate ResultIsFresh (outside the premise)
 THOROUGH_CHECKS = QUICK_CHECKS + ["intended_files", "intended_opts", "intended_codegen"]
-QUICK_GRAPHS = ["g_mtime", "g_sub", "g_libs", "g_opts", "g_codegen_q"]
+QUICK_GRAPHS = ["g_mtime", "g_sub", "g_libs", "g_opts", "g_eve", "g_codegen_q"]
 THOROUGH_GRAPHS = QUICK_GRAPHS + ["g_codegen", "g_big"]
 INIT_FILES = {"M": 1, "L1": 1, "L2": 1}
 
@@ -54,7 +55,7 @@ def ids_of(am):
     s = am["src"]
     lib = s["L1"] if s["L1"] else (50 + s["L2"] if s["L2"] else 0)
     return {"M": s["M"], "L": lib, "T": 10 + s["A"] if s["A"] else 0, "U": 10 + s["S"] if s["S"] else 0,
-            "simp": am["simp"], "ev": am["ev"], "by": am.get("by", 1)}
+            "simp": am["simp"], "ev": am["ev"], "eve": am.get("eve", "none"), "by": am.get("by", 1)}
 
 
 _fresh_memo = {}
@@ -201,7 +202,7 @@ def run(ctx):
     graphs = THOROUGH_GRAPHS if thorough else QUICK_GRAPHS
     import time
     t0 = time.time()
-    jobs = [(c, 4 if thorough else 2) for c in checks] + [("asbuilt_opts", 1)] + [(c, 1) for c in BEYOND] + [(gname, 1) for gname in graphs]
+    jobs = [(c, 4 if thorough else 2) for c in checks] + [(c, 1) for c in REGRESSIONS] + [(c, 1) for c in (BEYOND if thorough else [])] + [(gname, 1) for gname in graphs]
     with ThreadPoolExecutor(4) as ex:
         results = dict(ex.map(_run_tlc, jobs))
     ctx.extra["wall_tlc_s"] = round(time.time() - t0, 1)
@@ -213,15 +214,16 @@ def run(ctx):
         if r.violated:
             raise MachineryError("spec ModelCache (%s) violates %s - spec bug" % (c, r.violated))
     # 2. the as-built variant must exhibit the stale hit
-    r = results["asbuilt_opts"]
-    ctx.add_tlc(r, "as-built variant, expected to violate ResultIsFresh")
-    ctx.extra["asbuilt_violates"] = r.violated
-    if "ResultIsFresh" not in r.violated:
-        raise MachineryError("as-built variant no longer violates ResultIsFresh: switches and cfg out of step")
-    for c in BEYOND:
+    for c in REGRESSIONS:
+        r = results[c]
+        ctx.add_tlc(r, "regression variant %s (behaviour before the repairs / truthiness-only option comparison), expected to violate ResultIsFresh" % c)
+        ctx.extra.setdefault("regression_variants_violate", {})[c] = r.violated
+        if not any("ResultIsFresh" in v for v in r.violated):
+            raise MachineryError("regression variant %s no longer violates ResultIsFresh: switches and cfg out of step" % c)
+    for c in (BEYOND if thorough else []):
         r = results[c]
         ctx.add_tlc(r, "outside the premise (%s), expected to violate ResultIsFresh" % c)
-        if "ResultIsFresh" not in r.violated:
+        if not any("ResultIsFresh" in v for v in r.violated):
             raise MachineryError("%s no longer violates ResultIsFresh" % c)
     # 3. replay the as-built transition graphs
     scratch = tempfile.mkdtemp(prefix="vfc20_")
@@ -239,7 +241,7 @@ def run(ctx):
             if len(covered) != g.n_edges():
                 raise MachineryError("%s: tour covered %d of %d transitions" % (gname, len(covered), g.n_edges()))
             heavy = "codegen" in gname
-            walks = g.random_walks((8 if heavy else 60) if thorough else (2 if heavy else 10), 20 if heavy else 40, ctx.seed + 20)
+            walks = g.random_walks((8 if heavy else 60) if thorough else (2 if heavy else 6), 20 if heavy else 40, ctx.seed + 20)
             for kind, plist in (("tour", paths), ("walk", walks)):
                 for p in plist:
                     scenarios.append({"graph": gname, "kind": kind, "acts": _acts_of(g, p)})
